@@ -22,13 +22,14 @@ pub struct Layout {
     pub blank_lines: bool,    // blank lines between entries
     pub wrap: bool,           // flow: line break after every top-level entry
     pub quote_keys: bool,
+    pub lead_blank: bool,     // two blank lines before the document
 }
 impl Layout {
     pub fn new(kind: &'static str) -> Layout {
-        Layout { kind, indent: 2, quote: Quote::PlainSafe, doc_start: false, comments: false, blank_lines: false, wrap: false, quote_keys: false }
+        Layout { kind, indent: 2, quote: Quote::PlainSafe, doc_start: false, comments: false, blank_lines: false, wrap: false, quote_keys: false, lead_blank: false }
     }
     pub fn name(&self) -> String {
-        format!("{}{}{}{}{}{}{}", self.kind, if self.kind == "block" || self.kind == "json-pretty" { format!("-i{}", self.indent) } else { String::new() }, match self.quote { Quote::PlainSafe => "", Quote::Single => "-sq", Quote::Double => "-dq", Quote::Literal => "-lit", Quote::Folded => "-fold" }, if self.doc_start { "-doc" } else { "" }, if self.comments { "-cmt" } else { "" }, if self.blank_lines { "-blank" } else { "" }, if self.wrap { "-wrap" } else { "" }) + if self.quote_keys { "-qk" } else { "" }
+        format!("{}{}{}{}{}{}{}", self.kind, if self.kind == "block" || self.kind == "json-pretty" { format!("-i{}", self.indent) } else { String::new() }, match self.quote { Quote::PlainSafe => "", Quote::Single => "-sq", Quote::Double => "-dq", Quote::Literal => "-lit", Quote::Folded => "-fold" }, if self.doc_start { "-doc" } else { "" }, if self.comments { "-cmt" } else { "" }, if self.blank_lines { "-blank" } else { "" }, if self.wrap { "-wrap" } else { "" }) + if self.quote_keys { "-qk" } else { "" } + if self.lead_blank { "-leadblank" } else { "" }
     }
 }
 
@@ -314,6 +315,9 @@ fn json_compact(w: &mut W, v: &V, path: &str) {
 
 pub fn write(v: &V, l: &Layout) -> (String, Positions) {
     let mut w = W::new();
+    if l.lead_blank {
+        w.push("\n\n");
+    }
     if l.doc_start && (l.kind == "block" || l.kind == "flow") {
         w.push("---\n");
     }
